@@ -407,10 +407,10 @@ def node_notifications(ctx):
           'first ready tick, with clearJournal=False and before anything is applied (O6.3); committed entries are applied on every tick; '
           'append_entries are sent only by a leader; submissions are dispatched and compaction is tried once per tick; the journal\'s '
           'one-second timer is driven',
-      assumptions=['X8: cut before self._poller.poll', 'A-CLOCK'],
+      assumptions=['X8: cut before self._poller.poll', 'the clock stands still within the tick (timing-dependent blocks: units tick.election, tick.leader)', 'universe of 2 other nodes'],
       canaries=[('load-clears-journal', lambda mod: mutate_function(mod, 'SyncObj._onTick', _mut_load_clears), ['O6.3.start-up-load-keeps-the-journal'])])
 def tick_orchestration(ctx, role):
-    so = SO(ctx, min(UNIVERSE(), 3))
+    so = SO(ctx, 2)
     so.assume_inv()
     ctx.assume(so.get('raftState') == role)
     if role == 0:
@@ -430,12 +430,15 @@ def tick_orchestration(ctx, role):
         return f
     reg = dict(SUMMARIES)
     reg.update({'SyncObj.__loadDumpFile': rec('loadDumpFile', True), 'SyncObj.__applyLogEntries': rec('applyLogEntries', lambda I: FreshBool('needSend')),
-                'SyncObj.__sendAppendEntries': rec('sendAppendEntries'), 'SyncObj._checkCommandsToApply': rec('checkCommandsToApply'),
+                'SyncObj.__sendAppendEntries': (lambda I, s_, a, k: ev.append(('sendAppendEntries', (so.get('raftState'),), {}))),
+                'SyncObj._checkCommandsToApply': rec('checkCommandsToApply'),
                 'SyncObj.__tryLogCompaction': rec('tryLogCompaction'), 'Poller.poll': rec('poll'), 'Transport.tryGetReady': rec('tryGetReady')})
     old = so.snapshot()
     loops = {'SyncObj._onTick': loop_table(so.mod, 'SyncObj._onTick', {1: _commit_loop_spec(so, old)})}
+    # the clock stands still during this tick: the timing-dependent blocks (election, fallback) have their own units
+    frozen = lambda I_, a, k: so.now
     I = make_interp(ctx, so, registry=reg, loops=loops, inline={'SyncObj.__onBecomeLeader', 'SyncObj.__onLeaderChanged'},
-                    externals={'os.path.isfile': lambda I_, a, k: isfile})
+                    externals={'os.path.isfile': lambda I_, a, k: isfile, 'monotonicTime': frozen, 'monotonic.monotonic': frozen})
     kind, v = run_method(I, so, 'SyncObj._onTick', [0.0])
     ctx.prove(kind == 'ok', 'C01+C06:tick.no-exception', info=getattr(v, 'typ', None))
     if kind != 'ok':
@@ -455,8 +458,8 @@ def tick_orchestration(ctx, role):
     ctx.prove(names.count('applyLogEntries') == 1, 'C01:tick.committed-entries-applied-every-tick')
     ctx.prove(names.count('checkCommandsToApply') == 1 and names.count('tryLogCompaction') == 1, 'C02+C09:tick.submissions-and-compaction-once-per-tick')
     sends = [e for e in ev if e[0] == 'sendAppendEntries']
-    if sends:
-        ctx.prove(old.get('raftState') == 2, 'C01+C18:tick.only-a-leader-sends-append_entries')
+    for e in sends:
+        ctx.prove(e[1][0] == 2, 'C01+C18:tick.only-a-leader-sends-append_entries')
     timer = [op for op in ctx.glist('log_ops') if op[0] == 'timer']
     ctx.prove(len(timer) <= 1, 'C04:tick.timer-at-most-once')
 
